@@ -12,6 +12,14 @@ def run(c: Check):
               "starts).  non-trivial = at least two token files at once or a refused acquisition (file token), an "
               "aborted two-token start (process token); distinct by (configuration, schedule)")
     tc.run_check(c, "C08")
+    if c.replay and json.load(open(c.replay))["replay"].get("scenario", {}).get("kind") == "stress":
+        sc = dict(json.load(open(c.replay))["replay"]["scenario"], scratch=str(c.scratch()))
+        r = run_impl("drive_c08.py", sc, timeout=120)
+        log = r.pop("log")
+        if r["peak"] > sc["total"]:
+            c.violation("C08:stress-capacity-exceeded",
+                        "real processes: tasks running at the same instant hold %d > total %d" % (r["peak"], sc["total"]),
+                        dict(scenario=sc, log=log, peak_at=r["peak_at"]))
     if not c.quick and not c.replay:
         # supporting: real processes, real observer/threads/locks, task-side weighted interval log
         runs = []
